@@ -314,6 +314,261 @@ def exec_scenario(sc):
     return [{"sc": sc, "trace": t1}, {"sc": dict(sc, id=sc["id"] + "/bystander"), "trace": t2}]
 
 
+E2E_KINDS = ["ok", "ok", "usage", "internal", "unknown", "intcancel"]
+
+
+def exec_e2e(sc):
+    """Real SocketRPCServer + real async and sync clients over a Unix socket: what the callers get."""
+    import logging
+    import shutil
+    import tempfile
+    import threading
+
+    logging.disable(logging.CRITICAL)
+    from stepup.core import rpc
+    from stepup.core.exceptions import GraphError
+
+    rng = random.Random(sc["seed"])
+    trace = [{"ev": "start", "tid": sc["id"]}]
+    lock = threading.Lock()
+
+    def emit(**kw):
+        with lock:
+            trace.append(dict(kw, tid=sc["id"]))
+
+    async def main():
+        gates: dict[tuple[str, int], asyncio.Event] = {}
+
+        class Handler:
+            async def _gate(self, conn, k):
+                await gates.setdefault((conn, k), asyncio.Event()).wait()
+
+            @rpc.allow_rpc
+            async def ok(self, conn, k, arg):
+                await self._gate(conn, k)
+                return ["value", arg]
+
+            @rpc.allow_rpc
+            async def usage(self, conn, k, arg):
+                await self._gate(conn, k)
+                raise GraphError(f"usage error for {arg}")
+
+            @rpc.allow_rpc
+            async def internal(self, conn, k, arg):
+                await self._gate(conn, k)
+                raise RuntimeError(f"internal error for {arg}")
+
+            @rpc.allow_rpc
+            async def intcancel(self, conn, k, arg):
+                # something the handler waits for is cancelled by another component of the director
+                await self._gate(conn, k)
+                raise asyncio.CancelledError(f"cancelled inside the director: error for {arg}")
+
+        sockdir = tempfile.mkdtemp(prefix="vr-", dir=os.environ.get("VERIF_SCRATCH"))
+        path = os.path.join(sockdir, "s")
+        stop = asyncio.Event()
+        server = rpc.SocketRPCServer(Handler(), path)
+        serve = asyncio.create_task(server.serve(stop))
+        for _ in range(2000):
+            if os.path.exists(path) or serve.done():
+                break
+            await asyncio.sleep(0.001)
+        loop = asyncio.get_running_loop()
+        # whatever asyncio would log as an unhandled exception of a task or callback of the server
+        loop.set_exception_handler(lambda lp, ctx: emit(ev="server_error", what=(str(ctx.get("message")) + " " + repr(ctx.get("exception")))[:200]))
+
+        def outcome(conn, k, fn):
+            try:
+                res = fn()
+                return ("ok", res[1] if isinstance(res, list) and len(res) == 2 and res[0] == "value" else f"?{res!r}"[:40])
+            except GraphError as exc:
+                return ("GraphError", str(exc).rsplit(" ", 1)[-1])
+            except rpc.RPCError as exc:
+                m = re.search(r"error for (c\d+-k\d+)", str(exc))  # what the server raised for the call it ran
+                return ("RPCError", m.group(1) if m else "")
+            except ConnectionResetError:
+                return ("ConnectionResetError", "")
+            except BaseException as exc:  # noqa: BLE001
+                return (type(exc).__name__, str(exc)[:60])
+
+        async def one_async(client, conn, k, kind):
+            arg = f"{conn}-k{k}"
+            emit(ev="call", conn=conn, k=k, kind=kind, arg=arg)
+            try:
+                res = await asyncio.wait_for(client(kind if kind != "unknown" else "no_such_procedure", conn, k, arg), 20)
+                cls, val = ("ok", res[1]) if isinstance(res, list) and len(res) == 2 and res[0] == "value" else ("ok", f"?{res!r}"[:40])
+            except GraphError as exc:
+                cls, val = "GraphError", str(exc).rsplit(" ", 1)[-1]
+            except rpc.RPCError as exc:
+                m = re.search(r"error for (c\d+-k\d+)", str(exc))  # what the server raised for the call it ran
+                cls, val = "RPCError", (m.group(1) if m else arg)
+            except ConnectionResetError:
+                cls, val = "ConnectionResetError", ""
+            except asyncio.TimeoutError:
+                cls, val = "TimeoutError", ""
+            except BaseException as exc:  # noqa: BLE001
+                cls, val = type(exc).__name__, str(exc)[:60]
+            emit(ev="ret", conn=conn, k=k, cls=cls, val=val)
+
+        def sync_calls(conn, kinds):
+            client = rpc.SocketSyncRPCClient(path)
+            try:
+                for k, kind in enumerate(kinds, start=1):
+                    arg = f"{conn}-k{k}"
+                    emit(ev="call", conn=conn, k=k, kind=kind, arg=arg)
+                    try:
+                        res = client(kind if kind != "unknown" else "no_such_procedure", conn, k, arg, _rpc_timeout=20)
+                        cls, val = ("ok", res[1]) if isinstance(res, list) and len(res) == 2 and res[0] == "value" else ("ok", f"?{res!r}"[:40])
+                    except GraphError as exc:
+                        cls, val = "GraphError", str(exc).rsplit(" ", 1)[-1]
+                    except rpc.RPCError as exc:
+                        m = re.search(r"error for (c\d+-k\d+)", str(exc))  # what the server raised for the call it ran
+                        cls, val = "RPCError", (m.group(1) if m else arg)
+                    except BaseException as exc:  # noqa: BLE001
+                        cls, val = type(exc).__name__, str(exc)[:60]
+                    emit(ev="ret", conn=conn, k=k, cls=cls, val=val)
+            finally:
+                try:
+                    client.close()
+                except BaseException:  # noqa: BLE001
+                    pass
+
+        nconn = sc["nconn"]
+        clients = {f"c{i}": rpc.SocketAsyncRPCClient(path) for i in range(1, nconn + 1)}
+        tasks = []
+        plan = []
+        for conn, client in clients.items():
+            for k in range(1, sc["ncalls"] + 1):
+                kind = rng.choice(E2E_KINDS)
+                plan.append((conn, k))
+                tasks.append(asyncio.create_task(one_async(client, conn, k, kind)))
+        sync_kinds = [rng.choice(E2E_KINDS) for _ in range(sc["nsync"])]
+        sync_fut = loop.run_in_executor(None, sync_calls, "c9", sync_kinds) if sync_kinds else None
+        # completion order chosen by the driver; the gates of the synchronous client's calls open as they come
+        order = list(plan)
+        rng.shuffle(order)
+        drop = sc.get("drop")
+
+        def rogue_peer(how):
+            """A peer that is not an RPC client: raw bytes on a connection of its own, then gone."""
+            import socket as socket_mod
+
+            sk = socket_mod.socket(socket_mod.AF_UNIX, socket_mod.SOCK_STREAM)
+            try:
+                sk.settimeout(2)
+                sk.connect(path)
+                good = rpc._encode_message(1, rpc._encode_body(rpc.RPCCall("ok", ("cR", 1, "cR-k1"))))
+                if how == "garbage":
+                    body = pickle.dumps(["not", "a", "call"])
+                    sk.sendall((7).to_bytes(8, "big") + len(body).to_bytes(8, "big") + body)
+                elif how == "oversize":
+                    sk.sendall((7).to_bytes(8, "big") + (2**40).to_bytes(8, "big"))
+                elif how == "cut_body":
+                    sk.sendall(good + good[:16 + max(1, (len(good) - 16) // 2)])
+                elif how == "cut_header":
+                    sk.sendall(good + good[:7])
+                else:
+                    sk.sendall(b"\x00" * 5)
+            except OSError:
+                pass
+            finally:
+                sk.close()
+
+        for i, key in enumerate(order):
+            await asyncio.sleep(0)
+            if sc.get("rogue") and i == sc["rogue_at"]:
+                await loop.run_in_executor(None, rogue_peer, sc["rogue"])
+                await asyncio.sleep(0.002)
+            if drop and i == sc["drop_at"] and drop in clients:
+                # the peer vanishes: transport torn down without a close message
+                cl = clients[drop]
+                await cl._ensure_connected()
+                emit(ev="drop", conn=drop)
+                cl._writer.transport.abort()
+            for kk in [key] + [x for x in list(gates) if x[0] == "c9"]:
+                gates.setdefault(kk, asyncio.Event()).set()
+            await asyncio.sleep(0.001)
+        # open whatever is still waiting (calls of the synchronous client arrive one by one)
+        for _ in range(4000):
+            for ev in list(gates.values()):
+                ev.set()
+            if all(t.done() for t in tasks) and (sync_fut is None or sync_fut.done()):
+                break
+            await asyncio.sleep(0.002)
+        await asyncio.gather(*tasks, return_exceptions=True)
+        if sync_fut is not None:
+            await asyncio.wait_for(sync_fut, 30)
+        for cl in clients.values():
+            try:
+                await asyncio.wait_for(cl.close(), 10)
+            except BaseException:  # noqa: BLE001
+                pass
+        stop.set()
+        try:
+            await asyncio.wait_for(serve, 10)
+        except BaseException as exc:  # noqa: BLE001
+            emit(ev="server_error", what=type(exc).__name__)
+        shutil.rmtree(sockdir, ignore_errors=True)
+
+    try:
+        asyncio.run(main())
+    except BaseException as exc:  # noqa: BLE001
+        trace.append({"ev": "harness_error", "tid": sc["id"], "what": f"{type(exc).__name__}: {exc}"[:200]})
+    return {"sc": sc, "trace": trace}
+
+
+def make_e2e_scenarios(seed: int, n: int):
+    rng = random.Random(seed * 31 + 7)
+    out = []
+    for i in range(n):
+        nconn = rng.choice([1, 2, 3])
+        ncalls = rng.choice([2, 3, 4])
+        drop = f"c{rng.randint(1, nconn)}" if rng.random() < 0.3 else None
+        rogue = rng.choice(["garbage", "oversize", "cut_body", "cut_header", "short"]) if rng.random() < 0.5 else None
+        out.append({"id": f"e{seed}-{i}", "seed": seed * 7919 + i, "nconn": nconn, "ncalls": ncalls, "nsync": rng.choice([0, 2, 3]),
+                    "drop": drop, "drop_at": rng.randrange(nconn * ncalls), "rogue": rogue, "rogue_at": rng.randrange(nconn * ncalls)})
+    return out
+
+
+def validate_e2e(report, results):
+    lines = []
+    for r in results:
+        lines.extend(json.dumps(x, separators=(",", ":")) for x in r["trace"] if x["ev"] in ("start", "call", "ret", "drop"))
+    lines.append(json.dumps({"ev": "start", "tid": "end"}))
+    work = tlc.scratch_dir("vrp-")
+    tf, vf = os.path.join(work, "t.ndjson"), os.path.join(work, "v.json")
+    import shutil
+
+    try:
+        with open(tf, "w") as fh:
+            fh.write("\n".join(lines) + "\n")
+        rc, out, secs = tlc.run_tlc("RpcPair.tla", "RpcPair.cfg", env={"TRACE_FILE": tf, "VERDICT_FILE": vf}, workers=1, timeout=1800)
+        if not os.path.exists(vf) or "Error:" in out:
+            report.machinery("TLC failed on RpcPair: " + out[-2500:])
+            return 0
+        with open(vf) as fh:
+            res = json.load(fh)
+    finally:
+        shutil.rmtree(work, ignore_errors=True)
+    by_tid = {r["sc"]["id"]: r for r in results}
+    bad = res["bad"] if isinstance(res["bad"], list) else []
+    for b in bad[:12]:
+        r = by_tid.get(b["tid"], {})
+        report.add_violation("client_" + b["clause"], b["subj"], {"scenario": r.get("sc"), "trace": r.get("trace")}, tid=b["tid"])
+    for r in results:
+        for t in r["trace"]:
+            # a frame that is not RPC at all ends its own connection with an error, which asyncio logs:
+            # that is how the code reacts by design (the unit-level stage accepts it as well); a peer that
+            # merely vanishes, at whatever byte, must not cause any
+            if t["ev"] == "server_error" and r["sc"].get("rogue") in ("garbage", "oversize"):
+                continue
+            if t["ev"] in ("server_error", "harness_error"):
+                report.add_violation("unhandled_exception_in_the_server_after_a_peer_vanished" if t["ev"] == "server_error" else "end_to_end_harness_failed",
+                                     t["what"], {"scenario": r["sc"], "trace": r["trace"]}, tid=r["sc"]["id"])
+    ms = re.search(r"(\d+) distinct states found", out)
+    return int(ms.group(1)) if ms else 0
+
+
 def make_scenarios(seed: int, n: int):
     rng = random.Random(seed)
     out = []
@@ -411,6 +666,15 @@ def main(argv=None):
             for s, a in ex.map(lambda ch: validate(report, ch), chunks):
                 nstates += s
                 accepted += a
+        # end to end: the real server with real asynchronous and synchronous clients over a Unix socket
+        e2e = []
+        for kind, r in pmap(exec_e2e, make_e2e_scenarios(args.seed, {"quick": 150, "thorough": 3000}[args.tier])):
+            if kind == "err":
+                report.machinery("rpc end-to-end harness crashed: " + r[:1500])
+            else:
+                e2e.append(r)
+        e2e_states = validate_e2e(report, e2e) if e2e else 0
+        e2e_rets = sum(1 for r in e2e for t in r["trace"] if t["ev"] == "ret")
     nreplies = sum(1 for r in results for t in r["trace"] if t["ev"] == "reply")
     faults = sum(1 for r in results if any(t["ev"] == "eof" for t in r["trace"]) or
                  any(k in ("garbage", "oversize", "close") for k in r["sc"]["kinds"]))
@@ -419,6 +683,7 @@ def main(argv=None):
         "traces_validated_against_impl": len(results), "traces_accepted": accepted,
         "model_states_exhaustive": model_states, "model_seconds": round(secs, 1),
         "replies_observed": nreplies, "scenarios_with_faults": faults,
+        "end_to_end_scenarios": len(e2e), "end_to_end_outcomes_checked": e2e_rets, "end_to_end_states": e2e_states,
         "rule": "model: all behaviours of 3 calls x 9 kinds x unit fragmentations x completion orders x EOF points; implementation: seeded scenarios of the same space executed on the real RPCServerConnection",
     })
     report.sample(results[0]["trace"] if results else "none")
@@ -426,6 +691,8 @@ def main(argv=None):
         "the transport is a hand-fed asyncio.StreamReader and a recording writer; kernel-level fragmentation is replaced by controlled cuts at header/body boundaries and inside the body",
         "a call whose connection ends before the reply counts as unanswered (the client raises ConnectionResetError); exactly-one-reply is required of calls whose connection stays alive",
     ])
+    if len(e2e) < 50 or e2e_rets < 200:
+        report.machinery("vacuous run: too few end-to-end rpc outcomes")
     if len(results) < 200 or nreplies < 200:
         report.machinery("vacuous run: too few rpc executions")
     return report.finish()
